@@ -158,6 +158,22 @@ pub fn destruct<H: BuildHasher>(
 					)?;
 				}
 			}
+
+			if let Some(jrsonnet_ir::DestructRest::Keep(v)) = rest {
+				let omit: rustc_hash::FxHashSet<IStr> =
+					fields.iter().map(|f| f.0.clone()).collect();
+				destruct(
+					&Destruct::Full(v.clone()),
+					Thunk!(move || {
+						let mut out = crate::ObjValueBuilder::new();
+						out.with_super(full.evaluate()?)
+							.with_fields_omitted(omit.clone());
+						Ok(Val::Obj(out.build()))
+					}),
+					fctx.clone(),
+					new_bindings,
+				)?;
+			}
 		}
 	}
 	Ok(())
